@@ -128,10 +128,13 @@ structure WState where
   headerWritten : Bool
 deriving DecidableEq, Repr
 
-/-- `_get_buffered_file`: an appending writer starts with the header counted as written (repaired) -/
-def initState (m : Mode) : WState := ⟨m == Mode.append⟩
+/-- `_get_buffered_file` (repaired): a writer opened with 'w' owes the header; an appending writer owes it only
+when the target does not exist or is empty -/
+def initState (m : Mode) (targetEmpty : Bool) : WState := ⟨m == Mode.append && !targetEmpty⟩
 
-/-- as shipped: only `file_obj.mode != 'ab'` protected the header, which a gzip file object never satisfies -/
+/-- as shipped: every writer started owing the header and only `file_obj.mode != 'ab'` (the `plainAppend` flag of
+`writeStep`) held it back — which a gzip file object never satisfies, and which also withheld the header from a
+new file opened for appending -/
 def initStateOld (_m : Mode) : WState := ⟨false⟩
 
 /-- one `write(table)` call: header if none was written yet (before the emptiness test), then the dump of a
@@ -150,14 +153,36 @@ def writeAll (hdr : Bytes) (dump : List Row → Bytes) (plainAppend : Bool) : WS
 def writeStream (hdr : Bytes) (dump : List Row → Bytes) (plainAppend : Bool) (st : WState) (ts : List (List Row)) : Bytes :=
   writeAll hdr dump plainAppend st (ts.filter (· ≠ []))
 
-/-- a whole session: `first` pieces through one 'w' writer, every further piece through its own 'a' writer -/
-def session (hdr : Bytes) (dump : List Row → Bytes) (gz : Bool) (pieces : List (List Row)) (first : Nat) : Bytes :=
-  writeAll hdr dump false (initState .write) (pieces.take first) ++
-  ((pieces.drop first).map (fun t => writeAll hdr dump (!gz) (initState .append) [t])).flatten
+/-- one writer: opened for writing (truncates) or appending, fed by successive `write` calls or by one stream -/
+structure Sess where
+  mode : Mode
+  stream : Bool
+  pieces : List (List Row)
+deriving Repr
 
-def sessionOld (hdr : Bytes) (dump : List Row → Bytes) (gz : Bool) (pieces : List (List Row)) (first : Nat) : Bytes :=
-  writeAll hdr dump false (initStateOld .write) (pieces.take first) ++
-  ((pieces.drop first).map (fun t => writeAll hdr dump (!gz) (initStateOld .append) [t])).flatten
+/-- the file content after one writer session, given the content before it -/
+def runSess (hdr : Bytes) (dump : List Row → Bytes) (acc : Bytes) (s : Sess) : Bytes :=
+  let base := if s.mode = Mode.write then [] else acc
+  let st := initState s.mode (base == [])
+  base ++ (if s.stream then writeStream hdr dump false st s.pieces else writeAll hdr dump false st s.pieces)
+
+def runAll (hdr : Bytes) (dump : List Row → Bytes) : Bytes → List Sess → Bytes
+  | acc, [] => acc
+  | acc, s :: ss => runAll hdr dump (runSess hdr dump acc s) ss
+
+/-- the same with the shipped rule (`gz` = the target is a gzip file) -/
+def runSessOld (hdr : Bytes) (dump : List Row → Bytes) (gz : Bool) (acc : Bytes) (s : Sess) : Bytes :=
+  let base := if s.mode = Mode.write then [] else acc
+  let pa := s.mode == Mode.append && !gz
+  base ++ (if s.stream then writeStream hdr dump pa (initStateOld s.mode) s.pieces
+           else writeAll hdr dump pa (initStateOld s.mode) s.pieces)
+
+def runAllOld (hdr : Bytes) (dump : List Row → Bytes) (gz : Bool) : Bytes → List Sess → Bytes
+  | acc, [] => acc
+  | acc, s :: ss => runAllOld hdr dump gz (runSessOld hdr dump gz acc s) ss
+
+/-- the `write` calls a session really makes (a stream skips its empty chunks) -/
+def Sess.calls (s : Sess) : List (List Row) := if s.stream then s.pieces.filter (· ≠ []) else s.pieces
 
 /-- cut a table at the given positions -/
 def cutAt {α} (rows : List α) : Nat → List Nat → List (List α)
